@@ -20,6 +20,7 @@ ASSUMPTIONS = ['libm pow is accurate to 1e-9 relative (used only when the result
                '60-digit Decimal otherwise)',
                'events without a row in the combined-events factor table (60, 600, 3000, 5000, 10000, 3000SC) '
                'have no defined age-adjusted score: executed for crash-freedom only']
+RULE = RULE + '; plus unknown pairs (fixed, generated from pieces of real keys, and as the first call after import) and, in the single-process pass, interleaved calls that raise'
 
 UNKNOWN = [('M', 'XYZ'), ('X', '100'), ('F', '110H'), ('M', 'MAR'), ('F', '4x100'), ('Q', 'HJ'),
            ('M', '150'), ('F', 'SP4K')]
